@@ -312,6 +312,18 @@ func genChainWalk(r *rand.Rand, n int) []Step {
 			} else {
 				st = append(st, Step{"a": "withdrawStaking", "u": u, "kind": pick(r, "all", "elys")})
 			}
+		case 29: // (half of the former block steps) rarely: a user creates one more constant-product pool
+			if r.Intn(6) == 0 {
+				st = append(st, Step{"a": "createPool", "kind": "bal", "fee": pick(r, "0.003", "0"), "d1": pick(r, "uusdt", denomWBTC, "uatom"), "d2": "uusdc",
+					"a1": pick(r, "100000000", "5000"), "a2": pick(r, "100000000", "7000")})
+			} else {
+				if outage > 0 {
+					outage--
+				} else {
+					st = append(st, Step{"a": "feedAll"})
+				}
+				st = append(st, Step{"a": "block", "dt": float64(pick(r, 5, 5, 5, 60, 3600, 86400))})
+			}
 		case 30: // the permissionless oracle listing of a denom, sometimes twice in one (then rolled back) transaction
 			ls := Step{"a": "createAssetInfo", "u": u, "d": pick(r, "unewa", "unewb", "ibc/NEW"), "display": pick(r, "NEWA", "NEWB")}
 			if r.Intn(2) == 0 {
